@@ -53,7 +53,23 @@ def classify(case, kind):
     return cls
 
 
+def _link_repo():
+    """harness/src/bin/c16.rs includes cli/src/builtins.rs by a path relative to the harness; under VERIF_REPO the
+    harness is copied to <alt>/harness, so <alt>/repo must point at the worktree"""
+    if vlib.REPO == "/repo":
+        return
+    alt = os.path.dirname(vlib.HARNESS)
+    os.makedirs(alt, exist_ok=True)
+    link = os.path.join(alt, "repo")
+    if os.path.islink(link):
+        if os.readlink(link) == vlib.REPO:
+            return
+        os.remove(link)
+    os.symlink(vlib.REPO, link)
+
+
 def gen(ctx):
+    _link_repo()
     # the real CLI, for the end-to-end serverGraphqlOutput cases (module text + node import)
     ok, _ = vlib.cli_build(ctx)
     if not ok:
